@@ -17,7 +17,7 @@ using namespace vr;
 #define NSUB 3
 #endif
 static RealWorld* W;
-#if defined(MODE_SUBMIT) || defined(MODE_LIMITS) || defined(MODE_VBKTIE) || defined(MODE_TIMELY) || defined(MODE_PAIR) || defined(MODE_STALE2)
+#if defined(MODE_SUBMIT) || defined(MODE_LIMITS) || defined(MODE_VBKTIE) || defined(MODE_TIMELY) || defined(MODE_PAIR) || defined(MODE_STALE2) || defined(MODE_VTBFORK)
 // link-level oracles (spec: 'override'): signatures and address derivation answer "valid"; everything else is the real code
 namespace altintegration {
 bool Address::isDerivedFromPublicKey(Slice<const uint8_t>) const { return true; }
@@ -278,6 +278,32 @@ extern "C" __attribute__((noinline)) void h_mempool() {
   verif_check(t.setState(altHash(3), s3), 7);
   verif_check(t.vbk().getBestChain().tip()->getHash() == w.vbkById[5].getHash(), 8);   // now the extended fork really is the best one
   if (ext == 4) verif_cover(1); else verif_cover(2);
+#elif defined(MODE_VTBFORK)
+  // the pooled VTB sits in a block of a SHORTER, inactive VBK fork and endorses a block common to both VBK chains: validating it on the
+  // temporary block activates the fork, adds the VTB, and fork resolution goes back; removing the temporary block must take the VTB
+  // off the (now unapplied) fork block and out of the VBK payload index again (C12: generatePopData leaves all views as it found them)
+  addAltHeader(w, 2, 1);
+  mineVbk(w, 1); mineVbk(w, 2); mineVbk(w, 3);                      // VBK 2, 3, 4 (main chain)
+  { PopData pd; pd.context = {w.vbkById[2], w.vbkById[3], w.vbkById[4]}; t.acceptBlock(altHash(2), pd); ValidationState s; verif_check(t.setState(altHash(2), s), 1); }
+  uint8_t forkOn = (uint8_t)verif_choice(2, 3);
+  VTB V = makeValidVTB(w, 2, forkOn, 1, 5);                         // containing block 5 forks off block 2 or 3 (shorter than the main chain), endorses VBK 2
+  ValidationState st;
+  verif_check(mp.submit<VTB>(V, true, st).isValid(), 2);
+  uint64_t before = treesDigest();
+  verif_check(vbkIndexExact(t), 3);
+  PopData pd = mp.generatePopData();
+  verif_check(treesDigest() == before, 4);
+  verif_check(vbkIndexExact(t), 5);                                 // nothing of the temporary block is left in the VBK payload index
+  verif_check(t.vbk().getBlockIndex(w.vbkById[5].getHash()) == nullptr, 6);   // the fork block came with the VTB and left with it
+  verif_check(pd.vtbs.size() == 1 && pd.context.size() == 1, 7);
+  addAltHeader(w, 3, 2);
+  t.acceptBlock(altHash(3), pd);
+  ValidationState s3;
+  verif_check(t.setState(altHash(3), s3), 8);
+  auto* f = t.vbk().getBlockIndex(w.vbkById[5].getHash());
+  verif_check(f != nullptr && f->getPayloadIds<VTB>().size() == 1, 9);       // carried by a real block: exactly one copy
+  verif_check(vbkIndexExact(t), 10);
+  verif_cover(forkOn == 2 ? 1 : 2);
 #elif defined(MODE_TIMELY)
   // timeliness seen by the mempool == timeliness seen by the tree: an ATV endorsing block E is accepted / offered by the pool on tip T
   // exactly when a next block carrying it would be valid (T.height + 1 <= E.height + settlement interval) (C19 / C12)
